@@ -3,6 +3,7 @@ package main
 
 import (
 	"fmt"
+	"os"
 	"go/ast"
 	"go/token"
 	"go/types"
@@ -58,6 +59,7 @@ type Engine struct {
 	topo      map[*ssa.Function][]*ssa.BasicBlock
 	deferC    map[*ssa.Function]bool
 	fnInfos   map[*ssa.Function]*fnInfo
+	symCache  map[*T]map[string]bool
 	pf        *Portfolio
 	harness   string
 	cfg       RunConfig
@@ -99,7 +101,13 @@ type Engine struct {
 	exactBE    bool
 	repBounds  map[string][2]int
 	ifaceCands map[string][]types.Type
+	encInfo    map[*T]map[string]*T
 	curSite    string
+	curFn      *ssa.Function
+	bypass     *ssa.Function
+	curBlk     int
+	sites      []string
+	trace      bool
 	assumeList map[string]bool
 	pathLabels []string
 	stubsUsed  map[string]bool
@@ -108,6 +116,8 @@ type Engine struct {
 
 type Stats struct {
 	Paths, Instrs, Merged, PanicPaths, Pruned int
+	FeasN, FeasUnknown                       int
+	FeasMs                                   int64
 }
 
 type RunConfig struct {
@@ -117,6 +127,7 @@ type RunConfig struct {
 	MaxInstrs       int
 	Unwind          int
 	Merge           bool
+	Slice           bool
 }
 
 func (e *Engine) freshName(base string) string {
@@ -170,7 +181,23 @@ func (e *Engine) solve(extra []*T, wantModel bool, timeoutMs int, values []*T) (
 }
 
 func (e *Engine) feasible(c *T) string {
-	r, _, _ := e.solve([]*T{c}, false, e.cfg.BranchTimeoutMs, nil)
+	t0 := time.Now()
+	var r QueryResult
+	if e.cfg.Slice {
+		as := append(e.slice(c), c)
+		if e.collisionFree {
+			as = append(as, collisionAxioms(as)...)
+		}
+		script, _, _ := buildScript(as, nil)
+		r = e.pf.Check(script, "", e.cfg.BranchTimeoutMs)
+	} else {
+		r, _, _ = e.solve([]*T{c}, false, e.cfg.BranchTimeoutMs, nil)
+	}
+	e.stats.FeasN++
+	e.stats.FeasMs += time.Since(t0).Milliseconds()
+	if r.Res == "unknown" {
+		e.stats.FeasUnknown++
+	}
 	return r.Res
 }
 
@@ -208,6 +235,9 @@ func (e *Engine) choose(n int, cond func(i int) *T) int {
 		w := append(append([]int{}, e.decisions...), alt)
 		e.work = append(e.work, w)
 	}
+	if e.trace && len(ok) > 1 && e.curFn != nil {
+		fmt.Fprintf(os.Stderr, "  [choose p%d #%d x%d] near %s b%d\n", e.pathNo, len(e.decisions), len(ok), e.curFn.String(), e.curBlk)
+	}
 	d := ok[0]
 	e.decisions = append(e.decisions, d)
 	e.pos++
@@ -223,6 +253,16 @@ func (e *Engine) branch(c *T) bool {
 	}
 	if c.IsFalse() {
 		return false
+	}
+	// already decided on this path?
+	nc := Not(c)
+	for i := len(e.pc) - 1; i >= 0; i-- {
+		if e.pc[i] == c {
+			return true
+		}
+		if e.pc[i] == nc {
+			return false
+		}
 	}
 	e.effect("branch")
 	if e.pos < len(e.decisions) {
@@ -253,6 +293,9 @@ func (e *Engine) branch(c *T) bool {
 	}
 	if tOK && fOK {
 		e.work = append(e.work, append(append([]int{}, e.decisions...), 0))
+		if e.trace && e.curFn != nil {
+			fmt.Fprintf(os.Stderr, "  [fork p%d #%d] %s b%d\n", e.pathNo, len(e.decisions), e.curFn.String(), e.curBlk)
+		}
 	}
 	e.decisions = append(e.decisions, d)
 	e.pos++
@@ -313,6 +356,9 @@ func (e *Engine) globalLoc(x *ssa.Global) *Loc {
 	l, ok := e.globals[x]
 	if !ok {
 		l = e.newLoc(x.Type().(*types.Pointer).Elem())
+		if mkv, ok := thirdPartyGlobals[x.String()]; ok {
+			l.Val = mkv(e)
+		}
 		e.globals[x] = l
 	}
 	return l
@@ -470,8 +516,20 @@ func (e *Engine) info(fn *ssa.Function) *fnInfo {
 	return fi
 }
 
+// callBody executes fn's own body, bypassing intrinsics/models registered for it.
+func (e *Engine) callBody(fn *ssa.Function, args []Value) Value {
+	e.bypass = fn
+	return e.callFree(fn, args, nil)
+}
+
 func (e *Engine) callFree(fn *ssa.Function, args []Value, free []Value) Value {
 	fi := e.info(fn)
+	if e.bypass == fn {
+		e.bypass = nil
+		saved := *fi
+		fi = &saved
+		fi.intr, fi.model = nil, nil
+	}
 	name := fi.name
 	if fi.intr != nil {
 		e.stubsUsed[fi.norm] = true
@@ -480,6 +538,9 @@ func (e *Engine) callFree(fn *ssa.Function, args []Value, free []Value) Value {
 	if fi.model != nil {
 		e.stubsUsed["model:"+fi.norm] = true
 		return e.call(fi.model, args)
+	}
+	if envNoop(name, fn) {
+		return e.zeroResults(fn)
 	}
 	if fn.Blocks == nil {
 		if tgt := e.linkname(fn); tgt != nil {
@@ -627,6 +688,7 @@ func (e *Engine) runBlocks(fr *frame, blk *ssa.BasicBlock) Value {
 				fr.env[x] = e.doCall(fr, &x.Call)
 			case *ssa.If:
 				c := e.get(fr, x.Cond).(*T)
+				e.curFn, e.curBlk = fn, blk.Index
 				if e.branch(c) {
 					next = blk.Succs[0]
 				} else {
@@ -1218,6 +1280,7 @@ func (e *Engine) resetPath() {
 	e.collisionFree = false
 	e.repBounds = map[string][2]int{}
 	e.ifaceCands = map[string][]types.Type{}
+	e.encInfo = map[*T]map[string]*T{}
 }
 
 func (e *Engine) runHarness(fn *ssa.Function) {
